@@ -396,6 +396,12 @@ def case_builtins(gname, mesh):
         rec("form_grad_grad=GradUGradV", *close(gg.Integrate_e(f1), Bilinear.GradUGradV(g, cx, MatrixType.rigi)))
     except Exception as ex:
         rec("form_grad_grad=GradUGradV", False, "%s: %s" % (type(ex).__name__, ex), "raises")
+    # the product written with `*` on a scalar field (its values are 1-vectors): u * v == UV
+    try:
+        fs = Field(g, 1, MatrixType.mass)
+        rec("form_u*v(scalar field)=UV", *close(BiLinearForm(lambda u, v: u * v).Integrate_e(fs), Bilinear.UV(g, 1.0, dof_n=1, matrixType=MatrixType.mass)), kind="scalar-star-product")
+    except Exception as ex:
+        rec("form_u*v(scalar field)=UV", False, "%s: %s" % (type(ex).__name__, ex), kind="scalar-star-product")
     # u v scalar and vector
     for dof_n in (1, dim):
         fm = Field(g, dof_n, MatrixType.mass)
